@@ -144,7 +144,12 @@ func main() {
 	// two packages with the same name, different import paths and different FFIs
 	ffiPkgs["blk/store"] = "package store\n\nimport \"github.com/goose-lang/goose/machine/disk\"\n\nfunc Blocks() uint64 {\n\treturn disk.Size() + 1\n}\n"
 	ffiPkgs["mem/store"] = "package store\n\nfunc Blocks() uint64 {\n\treturn 9\n}\n"
-	special := []string{"sv0", "sv1", "sv2", "sv3", "blk/store", "mem/store", "fasync", "fdisk", "fnone"}
+	// packages that do not type-check (refused before conversion): their reports must come in a fixed order
+	for i := 0; i < 5; i++ {
+		name := fmt.Sprintf("tc%d", i)
+		ffiPkgs[name] = fmt.Sprintf("package %s\n\nfunc Wrong%d() uint64 {\n\treturn \"not a number %d\"\n}\n", name, i, i)
+	}
+	special := []string{"tc0", "tc1", "tc2", "tc3", "tc4", "sv0", "sv1", "sv2", "sv3", "blk/store", "mem/store", "fasync", "fdisk", "fnone"}
 	for _, name := range special {
 		dir := filepath.Join(mod, "g", name)
 		os.MkdirAll(dir, 0o755)
@@ -210,6 +215,23 @@ func main() {
 		again.Env = goEnv()
 		again.Run()
 		cmp("rerun-into-a-used-output-directory", snapshot(out), ref)
+		// ... and once more, now that every file there is up to date (nothing needs rewriting)
+		third := exec.Command(*goose, "-out", out, "-ignore-errors", "./g/...")
+		third.Dir = mod
+		third.Env = goEnv()
+		third.Run()
+		cmp("rerun-into-an-up-to-date-output-directory", snapshot(out), ref)
+		// a fresh directory in which only some packages are already there
+		os.RemoveAll(out)
+		some := exec.Command(*goose, "-out", out, "-ignore-errors", pkgs[0], pkgs[1])
+		some.Dir = mod
+		some.Env = goEnv()
+		some.Run()
+		rest := exec.Command(*goose, "-out", out, "-ignore-errors", "./g/...")
+		rest.Dir = mod
+		rest.Env = goEnv()
+		rest.Run()
+		cmp("rerun-after-translating-two-packages-alone", snapshot(out), ref)
 		os.RemoveAll(out)
 	}
 	// subsets: every file a subset writes equals the file of the full run
